@@ -41,6 +41,11 @@ impl Rng {
     }
     v
   }
+  /// random bytes of random length in 0..max
+  pub fn bytes_upto(&mut self, max: u64) -> Vec<u8> {
+    let n = self.below(max) as usize;
+    self.bytes(n)
+  }
   pub fn shuffle<T>(&mut self, v: &mut [T]) {
     for i in (1..v.len()).rev() {
       let j = self.below(i as u64 + 1) as usize;
